@@ -251,7 +251,8 @@ impl LspModule {
             }
             Some(line_span) => line_span,
         };
-        let current_pos = std::cmp::min(line_span.begin() + col, line_span.end());
+        let current_pos =
+            crate::inspect::pos_at_utf16_column(self.ast.codemap(), line_span, col);
 
         // Finalize the results after recursing down from and back up to the top level scope.
         match Self::find_definition_in_scope(&scope, current_pos) {
